@@ -124,7 +124,7 @@ def numstr_arg(t):
 
 
 class Transfer:
-    __slots__ = ('kind', 'to', 'frm', 'denom', 'amount', 'admin', 'ncoins', 'wellformed')
+    __slots__ = ('kind', 'to', 'frm', 'denom', 'amount', 'admin', 'ncoins', 'wellformed', 'coins')
 
     def __repr__(self):
         return 'Transfer(%s to=%s from=%s %s %s admin=%s)' % (self.kind, self.to, self.frm, self.amount, self.denom, self.admin)
@@ -141,6 +141,7 @@ def transfers(path):
             t.to = msg.fields[0]
             coins = msg.fields[1]
             t.ncoins = len(coins)
+            t.coins = [(c_.fields[0], c_.fields[1].fields[0]) for c_ in coins] if all(isinstance(c_, Adt) and c_.ty == 'Coin' for c_ in coins) else None
             t.frm, t.admin = CONTRACT, None
             if len(coins) == 1:
                 t.denom, t.amount = coins[0].fields[0], coins[0].fields[1].fields[0]
@@ -253,6 +254,21 @@ def no_tie_constraints(world):
     for n, d, r, *_ in world.ties:
         h = 2 * n + d
         cs += [h != 2 * d * r, h != 2 * d * (r + 1)]
+    for n, d, r, *_ in getattr(world, 'floor_ties', []):
+        cs += [n != d * r, n != d * (r + 1)]
+    return cs
+
+
+def tie_realising_constraints(world):
+    """a counterexample that exists only AT a tie of a 28-digit quotient is realisable when that quotient really is cut short below its
+    exact value: ask for a quotient a/q with fractional part exactly one third (0.333...3 is below 1/3), so the real arithmetic lands on
+    the lower neighbour the tolerant encoding allows"""
+    cs = []
+    for t in list(world.ties) + list(getattr(world, 'floor_ties', [])):
+        fac = t[3] if len(t) > 3 else None
+        if fac is not None and fac[0] is not None and fac[2] is not None:
+            a_, q_ = fac[0], fac[2]
+            cs += [q_ % 3 == 0, 3 * (a_ % q_) == q_]
     return cs
 
 
@@ -334,8 +350,8 @@ def predicted_result(path, c, eng):
     if path.kind == 'ok':
         msgs = []
         for t in transfers(path):
-            if t.kind == 'bank' and t.wellformed:
-                msgs.append({'type': 'bank_send', 'to': c.term_string(t.to, 'addr'), 'coins': [{'denom': c.term_string(t.denom, 'denom'), 'amount': str(c.int(t.amount))}]})
+            if t.kind == 'bank' and getattr(t, 'coins', None) is not None:
+                msgs.append({'type': 'bank_send', 'to': c.term_string(t.to, 'addr'), 'coins': [{'denom': c.term_string(d_, 'denom'), 'amount': str(c.int(a_))} for d_, a_ in t.coins]})
             elif t.kind == 'marker' and t.wellformed:
                 msgs.append({'type': 'marker_transfer', 'denom': c.term_string(t.denom, 'denom'), 'amount': str(c.int(t.amount)),
                              'administrator': c.term_string(t.admin, 'addr'), 'from': c.term_string(t.frm, 'addr'), 'to': c.term_string(t.to, 'addr')})
